@@ -140,9 +140,42 @@ func runBody(c Case, emit Emitter) {
 		if i%4 == 3 {
 			tok = "T0"
 		}
+		// text class of the constructors that take a text ("empty": the empty string)
+		if op.Str("txt") == "empty" {
+			tok = ""
+		}
 		d := ctx.doc
+		read := []int{}
 		ret, pmsg := guard(func() string {
 			switch op.Name() {
+			case "Read":
+				// the accessor pair: uids of what it returns (an element the body does not hold has uid -1)
+				uidOf := func(el interface{}) int {
+					if u, ok := ctx.uid[el]; ok {
+						return u
+					}
+					return -1
+				}
+				if op.Str("what") == "tables" {
+					for _, t := range d.Body.GetTables() {
+						read = append(read, uidOf(t))
+					}
+				} else {
+					for _, p := range d.Body.GetParagraphs() {
+						read = append(read, uidOf(p))
+					}
+				}
+			case "AddElement":
+				if op.Str("k") == "tbl" {
+					t, err := d.CreateTable(&document.TableConfig{Rows: 1, Cols: 2, Width: 3000})
+					if err != nil {
+						return "err"
+					}
+					t.SetCellText(0, 0, tok)
+					d.Body.AddElement(t)
+				} else {
+					d.Body.AddElement(&document.Paragraph{Runs: []document.Run{{Text: document.Text{Content: tok}}}})
+				}
 			case "AddParagraph":
 				d.AddParagraph(tok)
 			case "AddFormattedParagraph":
@@ -228,6 +261,7 @@ func runBody(c Case, emit Emitter) {
 		})
 		ev := Ev{"ev": "step", "case": c.ID, "i": i, "op": op, "ret": ret, "pmsg": pmsg}
 		ev["mem"] = ctx.mem()
+		ev["read"] = read
 		var saved []map[string]interface{}
 		sret, _ := guard(func() string {
 			b, err := d.ToBytes()
